@@ -54,7 +54,7 @@ class Ref(object):
         self.mem_model = mem_model
         self.endian = endian
         self.prefix = prefix
-        self.mem = mem if mem is not None else z3.Array('MEM', z3.BitVecSort(64), z3.BitVecSort(8))
+        self.mem = mem if mem is not None else z3.Function('MEM', z3.BitVecSort(64), z3.BitVecSort(8))
         self.mems = {}
         self.ufs = {}
         self.divisors = []     # z3 terms that are divisors of / % udiv umod sdiv smod
@@ -77,7 +77,7 @@ class Ref(object):
                 a = p + z3.BitVecVal(i, psize)
                 a64 = z3.ZeroExt(64 - psize, a) if psize < 64 else (
                     a if psize == 64 else z3.Extract(63, 0, a))
-                bs.append(z3.Select(self.mem, a64))
+                bs.append(self.mem(a64))
         else:
             if psize not in self.mems:
                 self.mems[psize] = z3.Array('mem%d' % psize, z3.BitVecSort(psize), z3.BitVecSort(8))
@@ -228,6 +228,8 @@ class Ref(object):
                 return b2bv(x == y)
             if op == 'FLAG_SIGN_SUB':
                 return z3.Extract(s - 1, s - 1, x - y)
+            if op == 'FLAG_SIGN_ADD':
+                return z3.Extract(s - 1, s - 1, x + y)
             if op == 'FLAG_ADD_CF':
                 return z3.Extract(s, s, zx(x, 1) + zx(y, 1))
             if op == 'FLAG_SUB_CF':
